@@ -135,50 +135,158 @@ func carriers() []carrier {
 	one, two := constant.NewInt(i32, 1), constant.NewInt(i32, 2)
 	return []carrier{
 		instCarrier("FastMathFlag", "InstFAdd", func(e *env, v []uint64) { e.b.NewFAdd(e.a, e.c).FastMathFlags = fmf(v) },
-			func(i ir.Instruction) ([]uint64, bool) { c, ok := i.(*ir.InstFAdd); if !ok { return nil, false }; return fmfBack(c.FastMathFlags), true }),
+			func(i ir.Instruction) ([]uint64, bool) {
+				c, ok := i.(*ir.InstFAdd)
+				if !ok {
+					return nil, false
+				}
+				return fmfBack(c.FastMathFlags), true
+			}),
 		instCarrier("FastMathFlag", "InstFSub", func(e *env, v []uint64) { e.b.NewFSub(e.a, e.c).FastMathFlags = fmf(v) },
-			func(i ir.Instruction) ([]uint64, bool) { c, ok := i.(*ir.InstFSub); if !ok { return nil, false }; return fmfBack(c.FastMathFlags), true }),
+			func(i ir.Instruction) ([]uint64, bool) {
+				c, ok := i.(*ir.InstFSub)
+				if !ok {
+					return nil, false
+				}
+				return fmfBack(c.FastMathFlags), true
+			}),
 		instCarrier("FastMathFlag", "InstFMul", func(e *env, v []uint64) { e.b.NewFMul(e.a, e.c).FastMathFlags = fmf(v) },
-			func(i ir.Instruction) ([]uint64, bool) { c, ok := i.(*ir.InstFMul); if !ok { return nil, false }; return fmfBack(c.FastMathFlags), true }),
+			func(i ir.Instruction) ([]uint64, bool) {
+				c, ok := i.(*ir.InstFMul)
+				if !ok {
+					return nil, false
+				}
+				return fmfBack(c.FastMathFlags), true
+			}),
 		instCarrier("FastMathFlag", "InstFDiv", func(e *env, v []uint64) { e.b.NewFDiv(e.a, e.c).FastMathFlags = fmf(v) },
-			func(i ir.Instruction) ([]uint64, bool) { c, ok := i.(*ir.InstFDiv); if !ok { return nil, false }; return fmfBack(c.FastMathFlags), true }),
+			func(i ir.Instruction) ([]uint64, bool) {
+				c, ok := i.(*ir.InstFDiv)
+				if !ok {
+					return nil, false
+				}
+				return fmfBack(c.FastMathFlags), true
+			}),
 		instCarrier("FastMathFlag", "InstFRem", func(e *env, v []uint64) { e.b.NewFRem(e.a, e.c).FastMathFlags = fmf(v) },
-			func(i ir.Instruction) ([]uint64, bool) { c, ok := i.(*ir.InstFRem); if !ok { return nil, false }; return fmfBack(c.FastMathFlags), true }),
+			func(i ir.Instruction) ([]uint64, bool) {
+				c, ok := i.(*ir.InstFRem)
+				if !ok {
+					return nil, false
+				}
+				return fmfBack(c.FastMathFlags), true
+			}),
 		instCarrier("FastMathFlag", "InstFNeg", func(e *env, v []uint64) { e.b.NewFNeg(e.a).FastMathFlags = fmf(v) },
-			func(i ir.Instruction) ([]uint64, bool) { c, ok := i.(*ir.InstFNeg); if !ok { return nil, false }; return fmfBack(c.FastMathFlags), true }),
+			func(i ir.Instruction) ([]uint64, bool) {
+				c, ok := i.(*ir.InstFNeg)
+				if !ok {
+					return nil, false
+				}
+				return fmfBack(c.FastMathFlags), true
+			}),
 		instCarrier("FastMathFlag", "InstFCmp", func(e *env, v []uint64) { e.b.NewFCmp(enum.FPredOEQ, e.a, e.c).FastMathFlags = fmf(v) },
-			func(i ir.Instruction) ([]uint64, bool) { c, ok := i.(*ir.InstFCmp); if !ok { return nil, false }; return fmfBack(c.FastMathFlags), true }),
+			func(i ir.Instruction) ([]uint64, bool) {
+				c, ok := i.(*ir.InstFCmp)
+				if !ok {
+					return nil, false
+				}
+				return fmfBack(c.FastMathFlags), true
+			}),
 		instCarrier("FastMathFlag", "InstPhi", func(e *env, v []uint64) {
 			// entry block branches to a second block that holds the phi
 			b2 := e.f.NewBlock("next")
 			e.b.NewBr(b2)
 			b2.NewPhi(ir.NewIncoming(e.a, e.b)).FastMathFlags = fmf(v)
 			e.b = b2
-		}, func(i ir.Instruction) ([]uint64, bool) { c, ok := i.(*ir.InstPhi); if !ok { return nil, false }; return fmfBack(c.FastMathFlags), true }),
+		}, func(i ir.Instruction) ([]uint64, bool) {
+			c, ok := i.(*ir.InstPhi)
+			if !ok {
+				return nil, false
+			}
+			return fmfBack(c.FastMathFlags), true
+		}),
 		instCarrier("FastMathFlag", "InstSelect", func(e *env, v []uint64) { e.b.NewSelect(constant.True, e.a, e.c).FastMathFlags = fmf(v) },
-			func(i ir.Instruction) ([]uint64, bool) { c, ok := i.(*ir.InstSelect); if !ok { return nil, false }; return fmfBack(c.FastMathFlags), true }),
+			func(i ir.Instruction) ([]uint64, bool) {
+				c, ok := i.(*ir.InstSelect)
+				if !ok {
+					return nil, false
+				}
+				return fmfBack(c.FastMathFlags), true
+			}),
 		instCarrier("FastMathFlag", "InstCall", func(e *env, v []uint64) {
 			fc := e.m.NewFunc("fcallee", types.Float, ir.NewParam("", types.Float))
 			// keep f the second function of the module
 			e.m.Funcs = []*ir.Func{fc, e.f}
 			e.b.NewCall(fc, e.a).FastMathFlags = fmf(v)
-		}, func(i ir.Instruction) ([]uint64, bool) { c, ok := i.(*ir.InstCall); if !ok { return nil, false }; return fmfBack(c.FastMathFlags), true }),
+		}, func(i ir.Instruction) ([]uint64, bool) {
+			c, ok := i.(*ir.InstCall)
+			if !ok {
+				return nil, false
+			}
+			return fmfBack(c.FastMathFlags), true
+		}),
 		instCarrier("OverflowFlag", "InstAdd", func(e *env, v []uint64) { e.b.NewAdd(e.x, e.y).OverflowFlags = ovf(v) },
-			func(i ir.Instruction) ([]uint64, bool) { c, ok := i.(*ir.InstAdd); if !ok { return nil, false }; return ovfBack(c.OverflowFlags), true }),
+			func(i ir.Instruction) ([]uint64, bool) {
+				c, ok := i.(*ir.InstAdd)
+				if !ok {
+					return nil, false
+				}
+				return ovfBack(c.OverflowFlags), true
+			}),
 		instCarrier("OverflowFlag", "InstSub", func(e *env, v []uint64) { e.b.NewSub(e.x, e.y).OverflowFlags = ovf(v) },
-			func(i ir.Instruction) ([]uint64, bool) { c, ok := i.(*ir.InstSub); if !ok { return nil, false }; return ovfBack(c.OverflowFlags), true }),
+			func(i ir.Instruction) ([]uint64, bool) {
+				c, ok := i.(*ir.InstSub)
+				if !ok {
+					return nil, false
+				}
+				return ovfBack(c.OverflowFlags), true
+			}),
 		instCarrier("OverflowFlag", "InstMul", func(e *env, v []uint64) { e.b.NewMul(e.x, e.y).OverflowFlags = ovf(v) },
-			func(i ir.Instruction) ([]uint64, bool) { c, ok := i.(*ir.InstMul); if !ok { return nil, false }; return ovfBack(c.OverflowFlags), true }),
+			func(i ir.Instruction) ([]uint64, bool) {
+				c, ok := i.(*ir.InstMul)
+				if !ok {
+					return nil, false
+				}
+				return ovfBack(c.OverflowFlags), true
+			}),
 		instCarrier("OverflowFlag", "InstShl", func(e *env, v []uint64) { e.b.NewShl(e.x, e.y).OverflowFlags = ovf(v) },
-			func(i ir.Instruction) ([]uint64, bool) { c, ok := i.(*ir.InstShl); if !ok { return nil, false }; return ovfBack(c.OverflowFlags), true }),
+			func(i ir.Instruction) ([]uint64, bool) {
+				c, ok := i.(*ir.InstShl)
+				if !ok {
+					return nil, false
+				}
+				return ovfBack(c.OverflowFlags), true
+			}),
 		exprCarrier("ExprAdd", func(v []uint64) constant.Constant { x := constant.NewAdd(one, two); x.OverflowFlags = ovf(v); return x },
-			func(c constant.Constant) ([]uint64, bool) { x, ok := c.(*constant.ExprAdd); if !ok { return nil, false }; return ovfBack(x.OverflowFlags), true }),
+			func(c constant.Constant) ([]uint64, bool) {
+				x, ok := c.(*constant.ExprAdd)
+				if !ok {
+					return nil, false
+				}
+				return ovfBack(x.OverflowFlags), true
+			}),
 		exprCarrier("ExprSub", func(v []uint64) constant.Constant { x := constant.NewSub(one, two); x.OverflowFlags = ovf(v); return x },
-			func(c constant.Constant) ([]uint64, bool) { x, ok := c.(*constant.ExprSub); if !ok { return nil, false }; return ovfBack(x.OverflowFlags), true }),
+			func(c constant.Constant) ([]uint64, bool) {
+				x, ok := c.(*constant.ExprSub)
+				if !ok {
+					return nil, false
+				}
+				return ovfBack(x.OverflowFlags), true
+			}),
 		exprCarrier("ExprMul", func(v []uint64) constant.Constant { x := constant.NewMul(one, two); x.OverflowFlags = ovf(v); return x },
-			func(c constant.Constant) ([]uint64, bool) { x, ok := c.(*constant.ExprMul); if !ok { return nil, false }; return ovfBack(x.OverflowFlags), true }),
+			func(c constant.Constant) ([]uint64, bool) {
+				x, ok := c.(*constant.ExprMul)
+				if !ok {
+					return nil, false
+				}
+				return ovfBack(x.OverflowFlags), true
+			}),
 		exprCarrier("ExprShl", func(v []uint64) constant.Constant { x := constant.NewShl(one, two); x.OverflowFlags = ovf(v); return x },
-			func(c constant.Constant) ([]uint64, bool) { x, ok := c.(*constant.ExprShl); if !ok { return nil, false }; return ovfBack(x.OverflowFlags), true }),
+			func(c constant.Constant) ([]uint64, bool) {
+				x, ok := c.(*constant.ExprShl)
+				if !ok {
+					return nil, false
+				}
+				return ovfBack(x.OverflowFlags), true
+			}),
 	}
 }
 
